@@ -68,11 +68,16 @@ def server_api_action(r, drv: Driver, retired, p=gv.SMALL):
     return ("unbind",)
 
 
+MS_ADTS_NOTICES = 0  # how many were crafted in this process (C08 gates on it)
+
+
 def ms_adts_notice(mid, controls=()):
     """Active Directory's notice of disconnection: no responseName inside the ExtendedResponse, the OID in a [10] element at
     the end of the envelope - after the controls when there are any (round-18 change C08-25)."""
     from vf.ref import ber
 
+    global MS_ADTS_NOTICES
+    MS_ADTS_NOTICES += 1
     root = rfc4511.Enc().message(("ExtendedResponse", mid, ((52, "", "bye", None), None, None), tuple(controls)))
     root.children.append(ber.Node(ber.CTX, False, 10, content=NOTICE_OID.encode(), kind="TRAIL"))
     return rfc4511.ser(root)
